@@ -4,7 +4,7 @@ import random
 from .ir import NUM, RANK, etype, is_num
 
 STR_POOL = ['', 'a', 'Hello', 'abc def', 'QB', '  pad  ', 'x,y', 'zzzzzzzzzzzzz', 'ABCDEFGHIJKLMN',
-            'ABCDEFGHIJKLMNO', '12', '3.5', '-7', '1e2', 'hello world']
+            'ABCDEFGHIJKLMNO', '12', '3.5', '-7', '1e2', 'hello world', 'tab\there', "it's; REM : x", '\u00e9t\u00e9']
 INT_POOL = [0, 1, 2, 3, 5, 7, 10, 12, 100, 255, 1000, 32767]
 LNG_POOL = [0, 1, 2, 40000, 65536, 100000, 2147483647, 70000]
 SNG_POOL = [0.0, 0.5, 1.5, 2.5, 3.25, 0.1, 10.75, 1000000.0, 1.0e10, 123.456, 0.001]
